@@ -33,6 +33,15 @@ Z975 = 1.959964
 SHAPES = scen.SHAPES_2D * 2 + [("cat", "cat", "cat"), ("mr", "cat", "mr")]
 
 
+NAMES = {
+    "row": ("row_proportion_variances", "row_std_dev", "row_std_err", "row_proportions_moe"),
+    "col": ("column_proportion_variances", "column_std_dev", "column_std_err",
+            "column_proportions_moe"),
+    "table": ("table_proportion_variances", "table_std_dev", "table_std_err",
+              "table_proportions_moe"),
+}
+
+
 @st.composite
 def case_st(draw, shapes):
     sc = draw(scen.scenario_st(shapes, measure="maybe",
@@ -40,6 +49,12 @@ def case_st(draw, shapes):
     tx, inforce = draw(xforms.slice_insertions_st(sc, where="either", allow_malformed=False))
     sc["transforms"] = tx
     sc["insertions"] = inforce
+    # the outputs are read in a drawn order and each is read twice: one output must not
+    # disturb another (in-place edits of cached intermediates)
+    allnames = [n for names in NAMES.values() for n in names]
+    sc["read_order"] = draw(st.permutations(allnames))
+    sc["strand_read_order"] = draw(st.permutations(
+        ["table_proportion_stddevs", "table_proportion_stderrs", "table_proportion_moes"]))
     return sc
 
 
@@ -95,13 +110,6 @@ def _overlap(*specs):
     return any(s[0] == "sub" and set(s[2]) & set(s[3]) for s in specs)
 
 
-NAMES = {
-    "row": ("row_proportion_variances", "row_std_dev", "row_std_err", "row_proportions_moe"),
-    "col": ("column_proportion_variances", "column_std_dev", "column_std_err",
-            "column_proportions_moe"),
-    "table": ("table_proportion_variances", "table_std_dev", "table_std_err",
-              "table_proportions_moe"),
-}
 
 
 def judge_slice(case, rec):
@@ -115,8 +123,15 @@ def judge_slice(case, rec):
     for part, tkey in zip(cube.partitions, tkeys):
         orc = Oracle(sv, q, table_key=tkey)
         rspecs, cspecs = _specs(part, orc, case)
+        pre = {}
+        for n in case.get("read_order") or [n for ns in NAMES.values() for n in ns]:
+            pre[n] = np.array(getattr(part, n), dtype=float)
+        for n in pre:
+            again = np.asarray(getattr(part, n), dtype=float)
+            if not np.array_equal(pre[n], again, equal_nan=True):
+                rec.violation("%s changes between two reads" % n, "reread")
         for direction, names in NAMES.items():
-            got = [np.asarray(getattr(part, n), dtype=float) for n in names]
+            got = [pre[n] for n in names]
             for i, rs in enumerate(rspecs):
                 for j, cs in enumerate(cspecs):
                     var, base = expected(orc, direction, rs, cs)
@@ -154,9 +169,16 @@ def judge_strand(case, rec):
         rec.nontrivial()
     rspecs = lib.display_specs(part.row_order(), part.row_labels, orc.rows,
                                case["insertions"]["rows"])
-    sd = np.asarray(part.table_proportion_stddevs, dtype=float)
-    se = np.asarray(part.table_proportion_stderrs, dtype=float)
-    moe = np.asarray(part.table_proportion_moes, dtype=float)
+    pre = {}
+    for n in case.get("strand_read_order") or ["table_proportion_stddevs",
+                                               "table_proportion_stderrs",
+                                               "table_proportion_moes"]:
+        pre[n] = np.array(getattr(part, n), dtype=float)
+    for n in pre:
+        if not np.array_equal(pre[n], np.asarray(getattr(part, n), dtype=float), equal_nan=True):
+            rec.violation("strand %s changes between two reads" % n, "reread1")
+    sd, se, moe = (pre["table_proportion_stddevs"], pre["table_proportion_stderrs"],
+                   pre["table_proportion_moes"])
     R = orc.rows
     for i, rs in enumerate(rspecs):
         key = orc.spec_key(rs)
